@@ -143,3 +143,44 @@ Section Hash.
     apply String.eqb_neq. exact Hs.
   Qed.
 End Hash.
+
+Section Seq.
+  Variable h : string -> N.
+
+  Lemma run_length evs : forall c out, run h evs c = Some out -> List.length out = List.length evs.
+  Proof.
+    induction evs as [|e r IH]; intros c out H; simpl in H.
+    - inversion H; reflexivity.
+    - destruct e as [s|k].
+      + destruct (run h r c) as [o|] eqn:E; [|discriminate]. inversion H; subst. simpl. f_equal. eapply IH; eauto.
+      + destruct (gen_id h k c) as [[nm c']|]; [|discriminate].
+        destruct (run h r c') as [o|] eqn:E; [|discriminate]. inversion H; subst. simpl. f_equal. eapply IH; eauto.
+  Qed.
+
+  Lemma kept_gens ks : kept (map Gen ks) = [].
+  Proof. induction ks; simpl; auto. Qed.
+
+  (* any interleaving of generations of the seven kinds: k calls give k pairwise distinct ids, none of them an id that
+     populated all_ids - whatever all_ids and whatever the hash *)
+  Lemma gen_sequence_fresh (A : list string) ks c out :
+    c_hashes c = map h A -> (forall k, gen_checks_all_ids k = true) ->
+    run h (map Gen ks) c = Some out ->
+    List.length out = List.length ks /\ NoDup out /\ (forall x, In x out -> ~ In x A).
+  Proof.
+    intros Hc Hchk H. split; [rewrite (run_length _ _ _ H), List.map_length; reflexivity|].
+    destruct (run_unique h A (map Gen ks) c out Hc Hchk) as [H1 H2]; auto.
+    - rewrite kept_gens. constructor.
+    - rewrite kept_gens. intros s [].
+    - split; auto. intros x Hx. destruct (H2 x Hx) as [Hk|(k & i & _ & _ & Hn)]; auto.
+      rewrite kept_gens in Hk. destruct Hk.
+  Qed.
+
+  Lemma run_total evs : (forall a b, h a = h b -> a = b) -> forall c, run h evs c <> None.
+  Proof.
+    intros Hinj. induction evs as [|e r IH]; intro c; simpl; [discriminate|].
+    destruct e as [s|k].
+    - specialize (IH c). destruct (run h r c); [discriminate|contradiction].
+    - destruct (gen_id h k c) as [[nm c']|] eqn:E; [|exfalso; exact (gen_id_total h k c Hinj E)].
+      specialize (IH c'). destruct (run h r c'); [discriminate|contradiction].
+  Qed.
+End Seq.
